@@ -91,8 +91,8 @@ theorem parse_printed (cap : Bool) (e : Expr) (hwf : e.WF) :
 
 /-! ### what the parsed pattern accepts -/
 
-theorem matchP_catList_eol (its : List Pat) : ∀ (n : Nat) (s : List Nat) (st : Pos),
-    st ∈ matchP false (catList (its ++ [Pat.eol])) (n, s) ↔ (st ∈ matchP false (catList its) (n, s) ∧ st.2 = []) := by
+theorem matchP_catList_eol (i : Bool) (its : List Pat) : ∀ (n : Nat) (s : List Nat) (st : Pos),
+    st ∈ matchP i (catList (its ++ [Pat.eol])) (n, s) ↔ (st ∈ matchP i (catList its) (n, s) ∧ st.2 = []) := by
   induction its with
   | nil =>
     intro n s st
@@ -146,8 +146,8 @@ theorem matchP_catList_eol (its : List Pat) : ∀ (n : Nat) (s : List Nat) (st :
         obtain ⟨a, b⟩ := st1
         exact ⟨(a, b), h1, (ih a b st).mpr ⟨h3, h4⟩⟩
 
-theorem fullMatch_anchored_items (its : List Pat) (hf : ∀ p ∈ its, p.Frag) (s : List Nat) :
-    fullMatch false (catList (Pat.bol :: (its ++ [Pat.eol]))) s = true ↔ denL its s := by
+theorem fullMatch_anchored_items (i : Bool) (its : List Pat) (hf : ∀ p ∈ its, p.Frag) (s : List Nat) :
+    fullMatch i (catList (Pat.bol :: (its ++ [Pat.eol]))) s = true ↔ denL i its s := by
   have hne : its ++ [Pat.eol] ≠ [] := by simp
   have hL : catList (Pat.bol :: (its ++ [Pat.eol])) = Pat.cat Pat.bol (catList (its ++ [Pat.eol])) := by
     cases h : its ++ [Pat.eol] with
@@ -155,25 +155,47 @@ theorem fullMatch_anchored_items (its : List Pat) (hf : ∀ p ∈ its, p.Frag) (
     | cons a as => rfl
   simp only [fullMatch, hL, matchP, ite_true, List.flatMap_cons, List.flatMap_nil, List.append_nil, List.any_eq_true,
     List.isEmpty_iff]
-  rw [← den_catList]
+  rw [← den_catList i]
   constructor
   · rintro ⟨st, hst, he⟩
-    obtain ⟨h1, _⟩ := (matchP_catList_eol its 0 s st).mp hst
-    obtain ⟨u, hu, hs, _⟩ := (matchP_exact false _ (frag_catList its hf) 0 s st).mp h1
+    obtain ⟨h1, _⟩ := (matchP_catList_eol i its 0 s st).mp hst
+    obtain ⟨u, hu, hs, _⟩ := (matchP_exact i _ (frag_catList its hf) 0 s st).mp h1
     rw [he] at hs
     simp at hs; subst hs; exact hu
   · intro h
     refine ⟨(s.length, []), ?_, rfl⟩
-    apply (matchP_catList_eol its 0 s _).mpr
-    exact ⟨(matchP_exact false _ (frag_catList its hf) 0 s _).mpr ⟨s, h, by simp, by simp⟩, rfl⟩
+    apply (matchP_catList_eol i its 0 s _).mpr
+    exact ⟨(matchP_exact i _ (frag_catList its hf) 0 s _).mpr ⟨s, h, by simp, by simp⟩, rfl⟩
 
-/-- **print → parse → match** for every well-formed expression and every scalar string: the pattern the
-regex crate builds from the printed text accepts the string iff it is in the string-level language of the expression -/
-theorem printed_accepts (cap : Bool) (e : Expr) (hwf : e.WF) (s : Str) (hs : ∀ c ∈ s, Scalar c) :
-    ∃ P, Spec.parse (fmtRegExp (cfgPlain cap) e) = some (⟨false, false⟩, P) ∧
-      (fullMatch false P s = true ↔ e.strLang s) := by
-  refine ⟨_, parse_printed cap e hwf, ?_⟩
-  have hd := Expr.both_den cap e hwf s hs
+/-- the text of the case-insensitivity flag -/
+def ciPrefix (i : Bool) : Str := if i then [40, 63, 105, 41] else []
+
+/-- a leading `(?i)` only sets the flag -/
+theorem parse_ci_prefix (r : Str) (P : Pat) (h : Spec.parse (94 :: r) = some (⟨false, false⟩, P)) (i : Bool) :
+    Spec.parse (ciPrefix i ++ 94 :: r) = some (⟨i, false⟩, P) := by
+  cases i with
+  | false => exact h
+  | true =>
+    have h0 : parseFlags (94 :: r) = (⟨false, false⟩, 94 :: r) := by simp [parseFlags]
+    have h1 : parseFlags (ciPrefix true ++ 94 :: r) = (⟨true, false⟩, 94 :: r) := by simp [parseFlags, ciPrefix]
+    simp only [Spec.parse, h0, h1] at h ⊢
+    cases hl : parseLoop false (2 * (94 :: r).length + 4) (94 :: r) [] [] [] with
+    | none => rw [hl] at h; simp at h
+    | some p =>
+      rw [hl] at h
+      simp only [Option.map_some, Option.some.injEq, Prod.mk.injEq, true_and] at h
+      simp [h]
+
+/-- **print → parse → match** for every well-formed expression and every scalar string, with or without `(?i)`: the
+pattern the regex crate builds from the printed text accepts the string iff it is in the string-level language of
+the expression (under `(?i)`: up to simple case folding, position by position) -/
+theorem printed_accepts_ci (i : Bool) (cap : Bool) (e : Expr) (hwf : e.WF) (s : Str) (hs : ∀ c ∈ s, Scalar c) :
+    ∃ P, Spec.parse (ciPrefix i ++ fmtRegExp (cfgPlain cap) e) = some (⟨i, false⟩, P) ∧
+      (fullMatch i P s = true ↔ e.strLang i s) := by
+  have hpp := parse_printed cap e hwf
+  rw [fmtRegExp_plain] at hpp
+  refine ⟨_, by rw [fmtRegExp_plain]; exact parse_ci_prefix _ _ hpp i, ?_⟩
+  have hd := Expr.both_den i cap e hwf s hs
   have hfr := Expr.both_frag cap e
   rw [fullMatch_anchored_items]
   · unfold topItems
@@ -190,5 +212,10 @@ theorem printed_accepts (cap : Bool) (e : Expr) (hwf : e.WF) (s : Str) (hs : ∀
     split
     · intro p hp; simp only [List.mem_singleton] at hp; subst hp; exact hfr.2
     · exact hfr.1
+
+theorem printed_accepts (cap : Bool) (e : Expr) (hwf : e.WF) (s : Str) (hs : ∀ c ∈ s, Scalar c) :
+    ∃ P, Spec.parse (fmtRegExp (cfgPlain cap) e) = some (⟨false, false⟩, P) ∧
+      (fullMatch false P s = true ↔ e.strLang false s) :=
+  printed_accepts_ci false cap e hwf s hs
 
 end Grexv
